@@ -31,7 +31,7 @@ From RM Require Import Model.EncTimingSpec Proofs.ControlPointsFacts Proofs.EncT
 From RM Require Import Proofs.Enc2Values Proofs.Enc2Samples Proofs.Enc2Float Proofs.Enc2Timing Proofs.Enc2Slider Proofs.Enc2Examples.
 From RM Require Proofs.Enc2SvReal.
 From RM Require Import Proofs.Enc2SvRT Proofs.Enc2Framing Proofs.Enc2SampleShape.
-From RM Require Import Proofs.Enc3Framing Proofs.Enc3Timing Proofs.Enc3Objects Proofs.Enc3Map Proofs.Enc3Example.
+From RM Require Import Proofs.Enc3Framing Proofs.Enc3Timing Proofs.Enc3Nodes Proofs.Enc3Objects Proofs.Enc3Map Proofs.Enc3Example.
 From Coq Require Reals.
 From RM Require Model.Curve.
 From RM Require Import Model.DrvEnc Proofs.EncMapImage.
@@ -897,6 +897,61 @@ Example C02_sliders_example :
   end.
 Proof. exact sliders_example. Qed.
 
+(* ---------- T02e, node samples (outside D31) ---------- *)
+(* Vocabulary (Proofs/Enc3Nodes.v).  [node_info v c (Some l)]: the SampleBankInfo the decoder builds
+   from the `normal:addition` piece the encoder writes for the sample list l (banks of the first
+   normal / first addition sample, no file name, volume v, custom index c); [node_sound]: the sound
+   bits written for it; [reread_nodes 0 0 n 0 nodes]: node i = convert_sound_type (node_info 0 0 (nth i
+   nodes)) (node_sound (nth i nodes)), for i < n. *)
+
+(* C02_slider_round_trip_partial with EVERY field of the re-read slider: besides start, position,
+   control points, repeat count, node count, expected length and THE SAME CURVE -- the mode, the
+   new-combo flag as the parser state forces it, the combo offset, the slider's own samples (its
+   extras field is read banks-only) and its node samples, exactly *)
+Theorem C02_slider_round_trip_full :
+  forall lm fmt_f64 fmt_f32 fmt_int, fmt_ok fmt_f64 fmt_f32 fmt_int -> fmt_f32_int fmt_f32 fmt_int ->
+  forall mode h s c l,
+  h_kind h = KSlider s -> elen_img h ->
+  slider_curve lm s = Done c ->
+  slider_ok h s (written_of (sl_expected_dist s) c) = true ->
+  object_line (dist_real lm) mode h = Done l ->
+  forall st, ho_mode st = sl_mode s ->
+  exists st' o s',
+    parse_hit_objects st (render fmt_f64 fmt_f32 fmt_int l) = Done (st', Ok) /\
+    ho_objects st' = ho_objects st ++ [o] /\
+    h_start o = h_start h /\ h_kind o = KSlider s' /\
+    sl_pos s' = sl_pos s /\
+    sl_control_points s' = sl_control_points s /\
+    sl_repeat_count s' = sl_repeat_count s /\
+    length (sl_node_samples s') = Z.to_nat (sl_repeat_count s + 2) /\
+    sl_expected_dist s' = reread_len (written_of (sl_expected_dist s) c) /\
+    slider_curve lm s' = Done c /\
+    sl_mode s' = sl_mode s /\
+    sl_new_combo s' = forced_new_combo st (sl_new_combo s) /\
+    sl_combo_offset s' = (if sl_new_combo s then sl_combo_offset s else 0) /\
+    sl_node_samples s' = reread_nodes 0 0 (Z.to_nat (sl_repeat_count s + 2)) 0 (sl_node_samples s) /\
+    h_samples o = convert_sound_type (node_info 0 0 (Some (h_samples h))) (node_sound (Some (h_samples h))).
+Proof. exact slider_round_trip_full. Qed.
+Print Assumptions C02_slider_round_trip_full.
+
+(* names and banks of a node survive: a sample list of the decoder's image ([samples_image]) without
+   a file name is re-read -- and, after the second decode has applied ANY sample point, still is --
+   with the same names, banks and bank-given flags.  (The re-read list is what an object line of a
+   non-mania map would give: node_reread_is_reread_samples.) *)
+Theorem C02_slider_node_samples_round_trip :
+  forall l, samples_image l = true -> first_file l = None ->
+  carry_samples (convert_sound_type (node_info 0 0 (Some l)) (node_sound (Some l))) = carry_samples l /\
+  forall p, carry_samples (map (sp_apply p) (convert_sound_type (node_info 0 0 (Some l)) (node_sound (Some l)))) = carry_samples l.
+Proof. exact node_reread_carry. Qed.
+Print Assumptions C02_slider_node_samples_round_trip.
+
+(* D31 (known finding): a re-read node NEVER has a file name, whatever the written node was -- the
+   edge-set field has no slot for it; a node with a file name comes back with the normal sample *)
+Theorem C02_slider_node_file_name_lost :
+  forall v c o s, first_file (convert_sound_type (node_info v c o) s) = None.
+Proof. exact node_reread_no_file. Qed.
+Print Assumptions C02_slider_node_file_name_lost.
+
 (* ---------- the computed sections composed with the framing theorem ---------- *)
 
 (* T02d composed (in the style of C02_decode_of_encoding_simple_sections): for every decoded map m
@@ -960,7 +1015,11 @@ Print Assumptions C02_encoding_computed_sections.
      -- a circle / spinner / hold: carry_object o = carry_object h (start, kind, position, combo flag
      and offset, duration, sample names and banks); a slider: the conclusion of
      C02_slider_round_trip_partial (same start, position, control points, repeat count, node count,
-     expected length re-read from the written one, THE SAME CURVE);
+     expected length re-read from the written one, THE SAME CURVE), the same mode and new-combo flag,
+     the combo offset as far as it is carried (next to the new-combo bit), names and banks of the
+     slider's own samples when they hold no file name (a decoded slider's never do: its extras are
+     read banks-only) and names and banks of every node that is in the decoder's image and holds no
+     file name (a file name on a node is class D31);
    [objects_classes lm m]: the recorded classes of the hit-object part -- every object outside its
      classes ([obj_classes]: D30; spinner / hold: D26 and the time condition, i.e. outside D33;
      slider: [slider_ok] = D13 / D17 / consecutive Catmull / D21 / D30, a computable curve, and read
@@ -1014,9 +1073,8 @@ Print Assumptions C02_hit_object_lines_reread.
      - m2 has the timing points of m, and the slider-velocity / kiai / scroll-speed timelines
        agree at every time                                                              (T02d),
      - the hit objects correspond one to one in [final_rel]                      (T02b / T02e).
-   Left out of [final_rel] for sliders: new-combo flag / offset, the slider's own samples and its
-   node samples (C02_slider_node_* below for the line level; file names on nodes are class D31), the
-   velocity (a function of data shown equal: C02_slider_velocity_round_trip). *)
+   Left out of [final_rel] for sliders: the velocity (a function of data shown equal:
+   C02_slider_velocity_round_trip), file names on nodes (class D31: C02_slider_node_file_name_lost). *)
 Theorem C02_round_trip_decoded_map :
   forall lm fmt_f64 fmt_f32 fmt_int,
   fmt_ok fmt_f64 fmt_f32 fmt_int -> no_leading_zero fmt_int -> fmt_f32_int fmt_f32 fmt_int ->
@@ -1063,6 +1121,15 @@ Example C02_round_trip_hypotheses_example :
   | _ => False
   end.
 Proof. exact all_kinds_facts. Qed.
+
+(* ... and the node clause of [final_rel] is not vacuous: the example's slider has repeat_count + 2 = 2
+   nodes, all in the decoder's image and without a file name, and so are its own samples *)
+Example C02_round_trip_nodes_example :
+  match decode_beatmap (dist_real lm0) (lines_of_text all_kinds_text) with
+  | Done m => map nodes_facts (hov_hit_objects (bmv_ho m)) = [[]; [2; 2; 1; 1]; []; []]
+  | _ => False
+  end.
+Proof. exact all_kinds_nodes. Qed.
 
 Example C02_objects_classes_checker :
   forall lm m, objects_classes_b lm m = true -> objects_classes lm m.
